@@ -511,6 +511,11 @@ Proof.
     replace (31 * n + 27 - 27) with (n * 31) by lia. apply N.mod_mul. discriminate.
 Qed.
 
+Lemma is_grease_id_small id : id < 27 -> is_grease_id id = false.
+Proof.
+  intros H. unfold is_grease_id. destruct (N.leb_spec 27 id) as [Hle|_]; [lia | reflexivity].
+Qed.
+
 Lemma tp_grease_id_ok o d : (forall k, d = Some k -> k < GREASE_MAX_MULTIPLIER) ->
   is_grease_id (tp_grease_id o d) = true.
 Proof.
